@@ -433,6 +433,7 @@ func (ds *AnySource) ProcessSegments(block *dataBlock) error {
 		wg.Add(1)
 		go func(dsp *DataStreamProcessor) {
 			defer wg.Done()
+			defer vrecover("processSegment")
 			dsp.processSegment(&segment)
 		}(dsp)
 	}
@@ -459,6 +460,7 @@ func (ds *AnySource) ProcessSegments(block *dataBlock) error {
 				wg.Add(1)
 				go func(dsp *DataStreamProcessor, flist []FrameIndex) {
 					defer wg.Done()
+					defer vrecover("processSecondaries")
 					dsp.processSecondaries(flist)
 				}(dsp, flist)
 			}
